@@ -50,5 +50,11 @@ func writeHeader(headerPath string, header Header) error {
 		return err
 	}
 
-	return os.WriteFile(headerPath, data, 0o666)
+	// Write to a temp file and rename, so that a crash while writing cannot
+	// leave a truncated header that prevents reopening.
+	tmpPath := headerPath + ".tmp"
+	if err = os.WriteFile(tmpPath, data, 0o666); err != nil {
+		return err
+	}
+	return os.Rename(tmpPath, headerPath)
 }
